@@ -10,8 +10,15 @@
 //!     lengths `push_bytes` really received. Oracle: the session's provider_event /
 //!     output_text_delta frames are identical across all chunkings of one body, agree with the
 //!     reference parser, and the session seq continues without gap.
+//!     Reset variants: the same bodies with the provider connection breaking after k body bytes
+//!     (chunked body without terminating chunk), k from `provider::hostile_cuts` (±3 bytes around
+//!     every event terminator, mid line, inside a UTF-8 character) and at random. Oracle: session
+//!     numbering stays 0,1,2,… and the provider_event frames of the broken run are a PREFIX
+//!     (payload-equal, in order) of the frames of the un-faulted run of the same body —
+//!     differential against the same implementation, never against the reference parser.
 //! (D) directed end-to-end cases for the two chunking-dependence defects predicted in DESIGN.md
-//!     (F13 invalid-UTF-8 replacement count, F14 bytes after `[DONE]`) — they run on every run.
+//!     (F13 invalid-UTF-8 replacement count, F14 bytes after `[DONE]`) and a directed sweep of
+//!     connection resets at every hostile cut of small LF / CRLF / mixed bodies — they run on every run.
 
 use crate::fixture::{runtime, App, Store};
 use crate::prng::{fnv, fnv_str, Rng};
@@ -29,7 +36,7 @@ use std::time::{Duration, Instant};
 const SIG_F13: &str = "C15/B/invalid_utf8_replacement_count_depends_on_chunking/truncated_multibyte_at_buffer_start";
 const SIG_F14: &str = "C15/B/events_after_done_marker_depend_on_chunking";
 
-const N_DIRECTED: u64 = 2;
+const N_DIRECTED: u64 = 3;
 const A_BASE: u64 = 1_000;
 const B_BASE: u64 = 10_000_000;
 
@@ -952,6 +959,8 @@ struct Chunking {
     label: &'static str,
     sizes: Vec<usize>,
     pause_us: u64,
+    /// the provider drops the connection after this many body bytes (no terminating chunk)
+    reset_after: Option<usize>,
 }
 
 impl Chunking {
@@ -965,7 +974,11 @@ impl Chunking {
             }
         }
         // the remainder goes out as the last chunk
-        Chunking { label, sizes, pause_us }
+        Chunking { label, sizes, pause_us, reset_after: None }
+    }
+    fn with_reset(mut self, k: usize) -> Chunking {
+        self.reset_after = Some(k);
+        self
     }
     fn cuts(&self, len: usize) -> Vec<usize> {
         let mut out = Vec::new();
@@ -984,6 +997,7 @@ struct RunOut {
     label: &'static str,
     planned: Vec<usize>,
     observed: Vec<usize>,
+    reset_after: Option<usize>,
     /// provider_event / output_text_delta frames, volatile fields removed, seq relative to the first
     frames: Vec<Value>,
 }
@@ -1037,6 +1051,9 @@ struct E2e {
     runs: u64,
     observed_partitions: HashSet<u64>,
     observed_cut_classes: BTreeSet<&'static str>,
+    wall_us_unfaulted: u64,
+    wall_us_reset: u64,
+    reset_runs: u64,
 }
 
 fn key_of(rec: &Recorded) -> Option<u64> {
@@ -1076,6 +1093,9 @@ impl E2e {
             runs: 0,
             observed_partitions: HashSet::new(),
             observed_cut_classes: BTreeSet::new(),
+            wall_us_unfaulted: 0,
+            wall_us_reset: 0,
+            reset_runs: 0,
         }
     }
 
@@ -1105,12 +1125,12 @@ impl E2e {
             }
             let key = self.next_key;
             self.next_key += 1;
-            self.replies
-                .lock()
-                .unwrap()
-                .insert(key, Reply::sse(body.to_vec()).chunked(ch.sizes.clone(), ch.pause_us));
+            let mut reply = Reply::sse(body.to_vec()).chunked(ch.sizes.clone(), ch.pause_us);
+            reply.reset_after = ch.reset_after;
+            self.replies.lock().unwrap().insert(key, reply);
             let _ = self.s.take_events();
             let app2 = app.clone();
+            let t_run = Instant::now();
             let res: Result<Vec<Value>, String> = self.rt.block_on(async {
                 let (st, v) = app2.json("POST", "/sessions", None).await;
                 let sid = v.get("session_id").and_then(|x| x.as_str()).unwrap_or("").to_string();
@@ -1148,6 +1168,12 @@ impl E2e {
             });
             let events = self.s.take_events();
             self.replies.lock().unwrap().remove(&key);
+            if ch.reset_after.is_some() {
+                self.wall_us_reset += t_run.elapsed().as_micros() as u64;
+                self.reset_runs += 1;
+            } else {
+                self.wall_us_unfaulted += t_run.elapsed().as_micros() as u64;
+            }
             let session_frames = res?;
             let observed: Vec<usize> = events
                 .iter()
@@ -1158,7 +1184,7 @@ impl E2e {
             for (i, f) in session_frames.iter().enumerate() {
                 if f["seq"].as_u64() != Some(i as u64) {
                     return Ok((
-                        vec![RunOut { label: "session_seq_not_consecutive", planned: ch.sizes.clone(), observed, frames: session_frames.clone() }],
+                        vec![RunOut { label: "session_seq_not_consecutive", planned: ch.sizes.clone(), observed, reset_after: ch.reset_after, frames: session_frames.clone() }],
                         store.log_bytes_settled(),
                     ));
                 }
@@ -1174,9 +1200,13 @@ impl E2e {
                     if base.is_none() {
                         base = Some(seq);
                         // "continues without gap from the frames before it"
-                        let before_ok = session_frames
-                            .iter()
-                            .any(|g| g["type"] == "openresponses_response_first_byte" && g["seq"].as_u64() == Some(seq.wrapping_sub(1)));
+                        // (a connection that breaks before the first body byte is read leaves the transport-error
+                        // frame right after the response headers)
+                        let before_ok = session_frames.iter().any(|g| {
+                            (g["type"] == "openresponses_response_first_byte"
+                                || (ch.reset_after.is_some() && g["type"] == "openresponses_response_headers"))
+                                && g["seq"].as_u64() == Some(seq.wrapping_sub(1))
+                        });
                         contiguous &= before_ok;
                     }
                     if let Some(p) = prev_seq {
@@ -1195,12 +1225,14 @@ impl E2e {
             }
             if !contiguous {
                 return Ok((
-                    vec![RunOut { label: "provider_frames_not_contiguous", planned: ch.sizes.clone(), observed, frames: session_frames.clone() }],
+                    vec![RunOut { label: "provider_frames_not_contiguous", planned: ch.sizes.clone(), observed, reset_after: ch.reset_after, frames: session_frames.clone() }],
                     store.log_bytes_settled(),
                 ));
             }
-            self.runs += 1;
-            outs.push(RunOut { label: ch.label, planned: ch.sizes.clone(), observed, frames });
+            if ch.reset_after.is_none() {
+                self.runs += 1;
+            }
+            outs.push(RunOut { label: ch.label, planned: ch.sizes.clone(), observed, reset_after: ch.reset_after, frames });
         }
         let log = store.log_bytes_settled();
         drop(app);
@@ -1210,6 +1242,9 @@ impl E2e {
     fn finish(self, r: &mut Report) {
         r.count("B_bodies", self.bodies);
         r.count("B_session_runs", self.runs);
+        r.count("B_session_runs_with_connection_reset", self.reset_runs);
+        r.count("B_wall_ms_unfaulted_runs", self.wall_us_unfaulted / 1000);
+        r.count("B_wall_ms_reset_runs", self.wall_us_reset / 1000);
         r.count("B_bodies_observed_under_2plus_partitions", self.bodies_multi_partition);
         r.count("B_bodies_single_partition_only_inconclusive", self.bodies_single_partition_only);
         r.count("B_distinct_body_partitions_observed", self.observed_partitions.len() as u64);
@@ -1314,7 +1349,7 @@ fn interesting_positions(b: &[u8]) -> Vec<usize> {
 fn plan_chunkings(rng: &mut Rng, body: &[u8], quick: bool, must: &[usize]) -> Vec<Chunking> {
     let n = body.len();
     let pauses = [300u64, 600, 1000, 2000];
-    let mut out = vec![Chunking { label: "whole", sizes: vec![], pause_us: 0 }];
+    let mut out = vec![Chunking { label: "whole", sizes: vec![], pause_us: 0, reset_after: None }];
     if n < 2 {
         return out;
     }
@@ -1325,7 +1360,7 @@ fn plan_chunkings(rng: &mut Rng, body: &[u8], quick: bool, must: &[usize]) -> Ve
         }
     }
     if n <= cfg_pick(quick, 160, 600) {
-        out.push(Chunking { label: "byte_at_a_time", sizes: vec![1; n], pause_us: 300 });
+        out.push(Chunking { label: "byte_at_a_time", sizes: vec![1; n], pause_us: 300, reset_after: None });
     }
     let mut interesting = interesting_positions(body);
     rng.shuffle(&mut interesting);
@@ -1350,7 +1385,7 @@ fn plan_chunkings(rng: &mut Rng, body: &[u8], quick: bool, must: &[usize]) -> Ve
     // uniform sizes
     for size in [2usize, 3, 5, 7, 16, 61] {
         if n / size <= cfg_pick(quick, 120, 400) && rng.chance(1, 2) {
-            out.push(Chunking { label: "uniform", sizes: vec![size; n / size + 1], pause_us: 300 });
+            out.push(Chunking { label: "uniform", sizes: vec![size; n / size + 1], pause_us: 300, reset_after: None });
         }
     }
     // random partition
@@ -1411,10 +1446,21 @@ fn judge_body(r: &mut Report, e: &mut E2e, info: &BodyInfo, outs: &[RunOut], log
 
     // harness-level early outs encoded in label
     if let Some(o) = outs.iter().find(|o| o.label == "session_seq_not_consecutive" || o.label == "provider_frames_not_contiguous") {
+        let (sig, what) = match o.reset_after {
+            Some(_) => (
+                format!("C15/B/seq_gap/{}/provider_connection_reset_mid_body", o.label),
+                "session frame numbering does not continue 0,1,2,… through the provider frames of a response whose connection broke mid-body",
+            ),
+            None => (
+                format!("C15/B/seq_gap/{}", o.label),
+                "session frame numbering does not continue 0,1,2,… through the provider frames",
+            ),
+        };
         r.violation(
-            &format!("C15/B/seq_gap/{}", o.label),
-            "session frame numbering does not continue 0,1,2,… through the provider frames",
-            witness(json!({"planned_chunks": o.planned, "observed_chunks": o.observed, "session_frames": o.frames})),
+            &sig,
+            what,
+            witness(json!({"planned_chunks": o.planned, "observed_chunks": o.observed, "reset_after_body_bytes": o.reset_after,
+                           "reset_cut_class": o.reset_after.map(|k| reset_class(body, k)), "session_frames": o.frames})),
         );
         return false;
     }
@@ -1538,8 +1584,8 @@ fn judge_body(r: &mut Report, e: &mut E2e, info: &BodyInfo, outs: &[RunOut], log
         // if the frames differ again (a one-off difference that does not reproduce is counted as inconclusive)
         {
             let again = [
-                Chunking { label: "confirm_1", sizes: first.planned.clone(), pause_us: 1500 },
-                Chunking { label: "confirm_2", sizes: o.planned.clone(), pause_us: 1500 },
+                Chunking { label: "confirm_1", sizes: first.planned.clone(), pause_us: 1500, reset_after: None },
+                Chunking { label: "confirm_2", sizes: o.planned.clone(), pause_us: 1500, reset_after: None },
             ];
             match e.run_body(body, &again, Instant::now() + Duration::from_secs(20)) {
                 Ok((re, _)) if re.len() == 2 && re[0].frames == re[1].frames => {
@@ -1592,6 +1638,130 @@ fn judge_body(r: &mut Report, e: &mut E2e, info: &BodyInfo, outs: &[RunOut], log
     }
 
     multi
+}
+
+// ---------------------------------------------------------------------------------------------
+// (B) reset variants: the provider connection breaks after k body bytes
+
+fn reset_class(body: &[u8], k: usize) -> &'static str {
+    crate::provider::hostile_cuts(body)
+        .into_iter()
+        .find(|c| c.0 == k)
+        .map(|c| c.1)
+        .unwrap_or("other")
+}
+
+/// Reset runs for one body: one cut per hostile cut class present (classes in random order, at most
+/// `max_classes`), plus one uniformly random cut. Half of them deliver the bytes before the cut in
+/// two chunks.
+fn plan_resets(rng: &mut Rng, body: &[u8], max_classes: usize) -> Vec<Chunking> {
+    let n = body.len();
+    let mut out = Vec::new();
+    if n < 3 {
+        return out;
+    }
+    let mut by_class: Vec<(&'static str, Vec<usize>)> = Vec::new();
+    for (p, l) in crate::provider::hostile_cuts(body) {
+        match by_class.iter_mut().find(|c| c.0 == l) {
+            Some(c) => c.1.push(p),
+            None => by_class.push((l, vec![p])),
+        }
+    }
+    rng.shuffle(&mut by_class);
+    let mut cuts: Vec<usize> = by_class.iter().take(max_classes).map(|(_, ps)| *rng.pick(ps)).collect();
+    cuts.push(1 + rng.usize(n - 1));
+    for k in cuts {
+        let inner = if k > 1 && rng.bool() { vec![1 + rng.usize(k - 1)] } else { Vec::new() };
+        out.push(Chunking::from_cuts("reset", n, &inner, 800).with_reset(k));
+    }
+    out
+}
+
+/// The early outs of `run_body` stay with the un-faulted runs (they are reported by `judge_body`).
+fn split_resets(outs: Vec<RunOut>) -> (Vec<RunOut>, Vec<RunOut>) {
+    outs.into_iter().partition(|o| {
+        o.reset_after.is_none() || o.label == "session_seq_not_consecutive" || o.label == "provider_frames_not_contiguous"
+    })
+}
+
+/// Shape of the frame that reports a transport error (no payload, an error text). An event whose payload is the
+/// JSON value `null` has the same shape, so the shape alone never decides which frame is the transport error.
+fn transport_error_shape(f: &Value) -> bool {
+    f["type"] == "provider_event"
+        && f["errors"].as_array().map(|a| !a.is_empty()).unwrap_or(false)
+        && f["data"].is_null()
+        && f["raw"].is_null()
+}
+
+/// Judge the reset runs of one body against its un-faulted run `reference` (same implementation):
+/// the frames of a run whose connection broke — minus the transport-error frame — must be a
+/// payload-equal prefix, in order, of the un-faulted frames. Numbering is judged in `run_body` /
+/// `judge_body` (session seq 0,1,2,… and whole-log check).
+fn judge_resets(r: &mut Report, info: &BodyInfo, reference: &RunOut, resets: &[RunOut]) {
+    let body = info.body;
+    let (_, invalid) = lossy_reference_text(body);
+    let bh = fnv(body);
+    let payload = |f: &Value| -> String {
+        let mut g = f.clone();
+        if let Some(o) = g.as_object_mut() {
+            o.remove("seq");
+        }
+        // invalid UTF-8: the number of U+FFFD per invalid sequence is known to depend on chunking (F13)
+        if invalid {
+            frames_collapsed(&[g]).pop().unwrap_or_default()
+        } else {
+            g.to_string()
+        }
+    };
+    let want: Vec<String> = reference.frames.iter().map(payload).collect();
+    for o in resets {
+        let k = o.reset_after.unwrap_or(0);
+        let class = reset_class(body, k);
+        r.eval();
+        r.count("B_reset_runs", 1);
+        r.count(&format!("B_reset_cut@{class}"), 1);
+        // the broken run may hold ONE frame the un-faulted run does not have — the transport error; it is the first
+        // frame that differs from the un-faulted run and has the transport-error shape
+        let mut got: Vec<String> = o.frames.iter().map(payload).collect();
+        let lcp = got.iter().zip(want.iter()).take_while(|(a, b)| a == b).count();
+        let mut err_at = None;
+        if lcp < got.len() && transport_error_shape(&o.frames[lcp]) {
+            got.remove(lcp);
+            err_at = Some(lcp);
+        }
+        if err_at.is_none() {
+            // the reader had already stopped (terminal marker before the cut)
+            r.count("B_reset_runs_without_transport_error_frame", 1);
+        } else {
+            r.count("B_reset_runs_with_transport_error_frame", 1);
+            r.distinct(bh ^ fnv_str(class) ^ 0xBE5E7);
+            if !got.is_empty() {
+                r.count("B_reset_runs_with_frames_from_bytes_before_the_cut", 1);
+            }
+        }
+        r.count("B_reset_frames_compared_with_unfaulted_run", got.len() as u64);
+        let is_prefix = got.len() <= want.len() && got.iter().zip(want.iter()).all(|(a, b)| a == b);
+        if !is_prefix {
+            let idx = got.iter().zip(want.iter()).position(|(a, b)| a != b).unwrap_or(want.len().min(got.len()));
+            let kept: Vec<&Value> = o.frames.iter().enumerate().filter(|(i, _)| Some(*i) != err_at).map(|(_, f)| f).collect();
+            r.violation(
+                &format!("C15/B/reset_frames_not_prefix_of_unfaulted_run/cut@{class}"),
+                &format!(
+                    "provider connection dropped after {k} of {} body bytes: the {} provider frames of that run are not a prefix of the {} frames of the un-faulted run of the same body (first difference at frame {idx})",
+                    body.len(), got.len(), want.len()
+                ),
+                json!({"case": info.case, "phase": "B", "what": info.what, "body_hex": hex::encode(body),
+                       "body_lossy": clip(&String::from_utf8_lossy(body)), "injected": info.inject_labels,
+                       "reset_after_body_bytes": k, "cut_class": class,
+                       "planned_chunks": o.planned, "observed_chunks": o.observed,
+                       "transport_error_frame_at": err_at,
+                       "frame_reset_run": kept.get(idx),
+                       "frame_unfaulted_run": reference.frames.get(idx),
+                       "frames_reset_run": o.frames.len(), "frames_unfaulted_run": reference.frames.len()}),
+            );
+            return;
+        }
+    }
 }
 
 fn clipv(v: &[usize]) -> Vec<usize> {
@@ -1657,12 +1827,20 @@ fn b_case(cfg: &Cfg, r: &mut Report, e: &mut E2e, idx: u64) {
         }
         must.truncate(cfg.tier.pick(6, 16));
     }
-    let chunkings = plan_chunkings(&mut rng, &body, quick, &must);
+    let mut chunkings = plan_chunkings(&mut rng, &body, quick, &must);
+    // reset variants of the same body (a stream of its own: the un-faulted chunkings stay what they were)
+    let mut rrng = cfg.case_rng(idx ^ (1 << 41));
+    chunkings.extend(plan_resets(&mut rrng, &body, cfg.tier.pick(4, 8)));
     let deadline = Instant::now() + Duration::from_secs_f64((cfg.budget_s - r.elapsed()).max(1.0));
     match e.run_body(&body, &chunkings, deadline) {
         Ok((outs, log)) => {
             let info = BodyInfo { case: idx, body: &body, what: "generated body", inject_labels: labels.clone() };
+            let (outs, reset_outs) = split_resets(outs);
             let multi = judge_body(r, e, &info, &outs, &log);
+            // outs[0] = the un-faulted run that got the body written as one chunk (an early out of run_body is alone)
+            if !reset_outs.is_empty() && outs.first().map(|o| o.label == "whole").unwrap_or(false) {
+                judge_resets(r, &info, &outs[0], &reset_outs);
+            }
             account_body(e, multi);
             r.count(&format!("B_bodies_{}", if labels.is_empty() { "valid_utf8" } else { "with_invalid_utf8" }), 1);
             for l in &labels {
@@ -1682,7 +1860,52 @@ fn b_case(cfg: &Cfg, r: &mut Report, e: &mut E2e, idx: u64) {
 // =============================================================================================
 // (D) directed reproductions of the two predicted chunking-dependence defects
 
+/// Directed sweep: small bodies in LF / CRLF / mixed framing, the provider connection reset at EVERY
+/// hostile cut (±3 bytes around each event terminator, mid line, inside a UTF-8 character).
+fn directed_resets(r: &mut Report, e: &mut E2e, d: u64) {
+    // (terminator of field lines, terminator of blank lines)
+    let framings: [(&str, &str, &str); 4] =
+        [("lf", "\n", "\n"), ("crlf", "\r\n", "\r\n"), ("lf_field_crlf_blank", "\n", "\r\n"), ("crlf_field_lf_blank", "\r\n", "\n")];
+    for (name, fe, be) in framings {
+        let mut text = String::new();
+        for (i, delta) in ["a", "é→🙂 b", "c"].iter().enumerate() {
+            let v = ev_text_delta(i as u64 + 1, "msg_1", delta);
+            if i != 1 {
+                text.push_str(&format!("event: response.output_text.delta{fe}"));
+            }
+            text.push_str(&format!("data: {v}{fe}{be}"));
+        }
+        text.push_str(&format!(": comment{fe}{be}data: {{not json{fe}{be}data: [DONE]{fe}{be}"));
+        let body = text.into_bytes();
+        let mut chunkings = vec![Chunking { label: "whole", sizes: vec![], pause_us: 0, reset_after: None }];
+        for (k, _) in crate::provider::hostile_cuts(&body) {
+            let inner = if k % 2 == 0 && k > 2 { vec![k / 2] } else { Vec::new() };
+            chunkings.push(Chunking::from_cuts("reset", body.len(), &inner, 800).with_reset(k));
+        }
+        let deadline = Instant::now() + Duration::from_secs(60);
+        match e.run_body(&body, &chunkings, deadline) {
+            Ok((outs, log)) => {
+                let what = format!("directed reset sweep, {name} framing");
+                let info = BodyInfo { case: d, body: &body, what: &what, inject_labels: vec![] };
+                let (outs, reset_outs) = split_resets(outs);
+                let _ = judge_body(r, e, &info, &outs, &log);
+                if !reset_outs.is_empty() && outs.first().map(|o| o.label == "whole").unwrap_or(false) {
+                    judge_resets(r, &info, &outs[0], &reset_outs);
+                }
+                r.count("D_directed_reset_bodies", 1);
+                r.count("D_directed_reset_runs", reset_outs.len() as u64);
+            }
+            Err(why) => r.inconclusive(&format!("directed case {d} ({name}): {why}")),
+        }
+    }
+    r.count("D_directed_cases_run", 1);
+}
+
 fn directed_case(cfg: &Cfg, r: &mut Report, e: &mut E2e, d: u64) {
+    if d == 2 {
+        directed_resets(r, e, d);
+        return;
+    }
     let delta_event = |delta_bytes: &[u8]| -> Vec<u8> {
         let mut b = b"event: response.output_text.delta\ndata: {\"type\":\"response.output_text.delta\",\"sequence_number\":1,\"item_id\":\"msg_1\",\"output_index\":0,\"content_index\":0,\"delta\":\"".to_vec();
         b.extend_from_slice(delta_bytes);
@@ -1706,7 +1929,7 @@ fn directed_case(cfg: &Cfg, r: &mut Report, e: &mut E2e, d: u64) {
             (body, vec![p, p - 1, p + 10], "directed F14: one more event after `data: [DONE]`")
         }
     };
-    let mut chunkings = vec![Chunking { label: "whole", sizes: vec![], pause_us: 0 }];
+    let mut chunkings = vec![Chunking { label: "whole", sizes: vec![], pause_us: 0, reset_after: None }];
     for &p in &must {
         chunkings.push(Chunking::from_cuts("single_split", body.len(), &[p], 3000));
     }
